@@ -127,6 +127,19 @@ func genRun(r *gen.Rand, o *gen.Out, kind string) (runCfg, []string) {
 			add("q")
 		}
 	}
+	// slow-store shape (healthy: the store answers, late): a flush whose commit takes longer than the persister's
+	// debounce interval is in flight when newer acks arrive and the stop begins; Teardown's forced flush must
+	// still wait for it, flush the newer batch and deliver every ack before the plugin is torn down
+	if kind == "stop" && !faults && r.Chance(1, 250) {
+		o.Count("shape=slow-commit-across-stop")
+		add(fmt.Sprintf("hd%d", r.Range(1150, 1400)))
+		add(fmt.Sprintf("a%d", r.Range(1, 2)))
+		add("f")
+		add("q")
+		for i := r.Range(1, 3); i > 0; i-- {
+			add(fmt.Sprintf("a%d", r.Range(1, 2)))
+		}
+	}
 	// overlapping-flush shape: a commit is held, a later ack arrives, and a second flush is requested with
 	// a CANCELLED context (Flush, or a force-stop Teardown): the generations must still be serialised —
 	// if they overlap, the older snapshot commits last and (on a blind store) overwrites the newer position
